@@ -127,20 +127,36 @@ def offset_pairing(ctx, rid):
 
 def copy_through_class(ctx, rid):
     """copy() returns self.__class__(self): the copy constructor of the model's own class is what carries the ancilla
-    counter, the constraint record and the label mapping over (an empty instance + update() carries none of them)."""
+    counter, the constraint record and the label mapping over.  An empty instance of the own class filled by update(self)
+    on every path is accepted too, given that update merges the record together with the counter (premise, checked here:
+    C14.record_and_counter_together)."""
     P, R = ctx.prog, ctx.res
     cp = P.func('DictArithmetic.copy')
     sn = R.self_name(cp)
+    g = cfg_of(cp.node)
     rets = [n for n in walk_no_nested(strip_docstring(cp.node.body)) if isinstance(n, ast.Return)]
+    own = ('%s.__class__' % sn, 'type(%s)' % sn)
+    via_update = False
     for r in rets:
         v = r.value
-        ok = isinstance(v, ast.Call) and src(v.func) in ('%s.__class__' % sn, 'type(%s)' % sn) and \
-            len(v.args) == 1 and is_name(v.args[0], sn)
+        ok = isinstance(v, ast.Call) and src(v.func) in own and len(v.args) == 1 and is_name(v.args[0], sn) and not v.keywords
+        if not ok and isinstance(v, ast.Name):
+            defs = [(s_, d_) for s_, d_ in assignments_to(cp.node, v.id)]
+            fresh = len(defs) == 1 and isinstance(defs[0][1], ast.Call) and src(defs[0][1].func) in own and \
+                not defs[0][1].args and not defs[0][1].keywords
+            ups = [enclosing_stmt(c) for c in calls_in(cp.node, 'update') if isinstance(c.func, ast.Attribute) and is_name(c.func.value, v.id)
+                   and len(c.args) == 1 and is_name(c.args[0], sn) and not c.keywords]
+            others = [c for c in calls_in(cp.node) if isinstance(c.func, ast.Attribute) and is_name(c.func.value, v.id) and call_name(c) != 'update']
+            if fresh and ups and not others and g.dominates(ups, r) and all(g.dominates([defs[0][0]], u) for u in ups):
+                ok = via_update = True
         ctx.inst(rid, cp, r, ok, "copy constructs through the model's own class" if ok else
                  "copy() does not return self.__class__(self): type or bookkeeping (ancilla counter, constraints, mapping) of "
                  "the copy differ")
     if not rets:
         ctx.inst(rid, cp, 'def copy', False, "copy() returns nothing")
+    if via_update:
+        from .C14 import record_and_counter_together
+        record_and_counter_together(ctx, rid)
 
 
 def rules(ctx):
